@@ -392,6 +392,16 @@ class KAT:
             return v
         if short == "argmax":
             return Flat()
+        if cn in ("int", "float") and len(args) == 1:
+            return self.ev(args[0])
+        if cn == "divmod" and len(args) == 2:
+            v, w = self.ev(args[0]), self.ev(args[1])
+            if isinstance(v, Flat) and isinstance(w, Ext):
+                if w.axis != COL:
+                    self.clash(e, f"`{unparse(e)[:60]}` decomposes a row-major flat index with the row extent")
+                    return None
+                return Seq((Comp(ROW), Comp(COL)))
+            return None
         if short == "unravel_index":
             return Seq((Comp(ROW), Comp(COL)))
         if short == "item" and isinstance(e.func, ast.Attribute):
